@@ -13,9 +13,15 @@ Definition closed_but (r : registry) (m : N) : Prop :=
   forall id t c, resolve r id = Some t -> In c (param_ids t ++ def_ids (t_def t)) -> in_reg r c \/ c = m.
 
 (** [resolvable] (Model/WellFormed.v, the class of [C10_resolve_total]) with "closed" replaced by
-    "closed except for references to [m]", [m] not an id of the registry *)
+    "closed except for references to [m]", [m] not an id of the registry; [ranked_but]: [rank]
+    strictly decreases along the non-field edges (the edge to [m] included) and is bounded by the
+    size on the ids of the registry *)
+Definition ranked_but (r : registry) (rank : N -> nat) : Prop :=
+  (forall id t c, resolve r id = Some t -> In c (nonfield_ids t) -> rank c < rank id) /\
+  (forall id, in_reg r id -> rank id <= List.length r).
+
 Definition resolvable_but (r : registry) (s : settings) (rank : N -> nat) (m : N) : Prop :=
-  ~ in_reg r m /\ closed_but r m /\ ranked r rank /\ entries_ok resolvable_entryb r /\
+  ~ in_reg r m /\ closed_but r m /\ ranked_but r rank /\ entries_ok resolvable_entryb r /\
   settings_ok r s /\ entries_ok (compact_inner_ok_at r) r.
 
 (** the id a [Cow] entry is looked through to *)
